@@ -389,7 +389,7 @@ def one_run(dyn, ctl, leaves, proto, gen, case, j, run):
     md = dyn.metadata()
     obs.update({'calls': list(ctl.calls), 'fired': ctl.fired, 'raised': raised,
                 'status': md.get(epyc.Experiment.STATUS), 'exception': type(md.get(epyc.Experiment.EXCEPTION)).__name__ if md.get(epyc.Experiment.EXCEPTION) is not None else None,
-                'remaining': gen._remaining, 'generated': ctl.generated, 'yielded': ctl.yielded,
+                'remaining': getattr(gen, '_remaining', None), 'generated': ctl.generated, 'yielded': ctl.yielded,
                 'left_queue': len(dyn._postedEvents), 'left_finder': len(dyn._postedEventFinder),
                 'time': md.get('epydemic.monitor.time'), 'events': md.get('epydemic.monitor.events'),
                 'results': repr(sorted((rc or {}).get(epyc.Experiment.RESULTS, {}).items(), key=repr)) if rc else None,
@@ -649,7 +649,7 @@ class H(Harness):
                             s['own_dicts'] = False
                     handed.append(g)
                     write_probe(g, 'op%d' % i)
-            s.update({'generated': ctl.generated, 'yielded': ctl.yielded, 'remaining': gen._remaining,
+            s.update({'generated': ctl.generated, 'yielded': ctl.yielded, 'remaining': getattr(gen, '_remaining', None),
                       'proto_same': graph_value(proto) == before})
             steps.append(s)
 
